@@ -87,8 +87,10 @@ class _IteratorToAsyncIterator(t.Generic[V]):
 def auto_aiter(
     iterable: "t.AsyncIterable[V] | t.Iterable[V]",
 ) -> "t.AsyncIterator[V]":
-    if hasattr(iterable, "__aiter__"):
-        return iterable.__aiter__()
+    # Like ``async for``, look the protocol up on the type: an object whose
+    # ``__getattr__`` answers every name is not an async iterable.
+    if hasattr(type(iterable), "__aiter__"):
+        return iterable.__aiter__()  # type: ignore[union-attr]
     else:
         return _IteratorToAsyncIterator(iter(iterable))
 
